@@ -70,7 +70,7 @@ func (cache *httpCache) makeURL(key []byte) string {
 }
 
 // write writes a series of files into the given Writer.
-func (cache *httpCache) write(w io.WriteCloser, target *core.BuildTarget, files []string) {
+func (cache *httpCache) write(w *io.PipeWriter, target *core.BuildTarget, files []string) {
 	defer w.Close()
 	gzw := gzip.NewWriter(w)
 	defer gzw.Close()
@@ -83,7 +83,10 @@ func (cache *httpCache) write(w io.WriteCloser, target *core.BuildTarget, files 
 			return storeFile(tw, name)
 		}); err != nil {
 			log.Warning("Error uploading artifacts to HTTP cache: %s", err)
-			// TODO(peterebden): How can we cancel the request at this point?
+			// Abort the upload: the request body now fails with this error instead of ending as a well-formed
+			// (but incomplete) archive, so the server never stores a partial artifact.
+			w.CloseWithError(err)
+			return
 		}
 	}
 }
